@@ -240,7 +240,7 @@ func c12flip(r *vkit.RNG, b []byte) []byte {
 }
 
 func TestC12(t *testing.T) {
-	run := vkit.NewRun(t, "C12", "fault_enumeration",
+	run := vkit.NewRun(t, "C12", "exploration",
 		"cases = (block built by the real layout rules) × (object: commitment proof per blob | blob proof + Included per blob | range result per in-namespace share range | "+
 			"data-root tuple root/proof per header range and height) × (honest | tamper operator: append/drop/reorder/duplicate component, widen/shift range, substitution from another "+
 			"blob/range/block/height, nil or short component, other commitment, other root | JSON byte mutation); distinct = distinct (block or header range, object, position, operator) on which the "+
